@@ -30,7 +30,7 @@ STATE_CLAUSES = {
 EVENT_CLAUSES = {
     "C04": [],
     "C18": [],
-    "C01": ["clock"],
+    "C01": ["clock", "transit_side"],
     "C02": ["work", "machine_outage", "machine_release", "due", "clock"],
     "C03": ["stores"],
     "C05": [],
@@ -129,6 +129,19 @@ def _worker(args):
     for k, pos, name, s in sv[:50]:
         out["violations"].append({"kind": "state:" + name, "detail": "clause %s false at %s" % (name, pos),
                                   "replay": replay_of(k, state=s, position=pos)})
+    if prop == "C01":
+        # hypothesis of the C01 theorems: the compiled initial state of every episode is fresh
+        nfresh = 0
+        for e in eps:
+            if e.first < e.last:
+                r0 = tracer.records[e.first]
+                drv.set_codec(r0.codec)
+                bits = drv.ask("M " + r0.pre).strip("()").split()
+                nfresh += 1
+                if bits[trace.CLAUSES.index("fresh")] != "1":
+                    out["violations"].append({"kind": "state:fresh", "detail": "the initial state of the episode is not "
+                                              "fresh (hypothesis of the C01 theorems)", "replay": replay_of(e.first, state=r0.pre)})
+        out["fresh_initial_states"] = nfresh
     if want_events:
         st = {}
         ev = trace.monitor_events(tracer.records, drv, which=set(EVENT_CLAUSES.get(prop, [])) or {"-"}, stats=st)
@@ -234,7 +247,9 @@ def outcome_facts(ep, rec, tracer, k):
                     f.update(buffer=list(b), store_len=len(store), capacity=int(cap),
                              exactly_full=(len(store) == int(cap)), buffer_kind=b[0])
         if ep.end == "raise:ZeroDivisionError":
-            jobs = [[(int(o[0]), int(o[1][1])) for o in j] for j in i[0]]
+            def dur(tc):   # deterministic value, or the stochastic object's value when the instance was compiled
+                return int(tc[1]) if tc[0] == "d" else int(rec.codec.sigma[int(tc[1])][0])
+            jobs = [[(int(o[0]), dur(o[1])) for o in j] for j in i[0]]
             tmax = sum(d for j in jobs for _, d in j)
             nm = len(i[1])
             lbs = [sum(d for _, d in j) for j in jobs]
